@@ -865,13 +865,29 @@ def unrouteStates {α : Type} :
     match unrouteStates rest vec car bc with | .ok r => .ok (c :: r) | .error e => .error e
   | _, _, _, _ => .error .dequeEmpty
 
+/-- the integer axes of a prefix, in order: one per vectorised state -/
+def axisKs (axes : List Ax) : List Int :=
+  axes.filterMap (fun a => match a with | .axis k => some k | _ => none)
+
+/-- `vectorized_states.popleft()` once per integer axis: `rows[i]` holds the vectorised states iteration `i` returned
+that are still to be processed; each is stacked along 0 by lax.scan and then `moveaxis(x, 0, axis)` -/
+def scanCollectVecK {α : Type} [Inhabited α] : List Int → List (List (State α)) → Except Err (List (State α))
+  | [], _ => .ok []
+  | k :: ks, rows =>
+    match column 0 rows with
+    | .error e => .error e
+    | .ok col =>
+      match stackStates (stackFront k) col with
+      | .error e => .error e
+      | .ok s =>
+        match scanCollectVecK ks (rows.map (·.drop 1)) with
+        | .error e => .error e
+        | .ok r => .ok (s :: r)
+
 /-- the vectorised states of one node over all iterations, stacked along 0 and moved to their axes -/
 def scanCollectVec {α : Type} [Inhabited α] (axes : List Ax) (rows : List (List (State α))) :
     Except Err (List (State α)) :=
-  let ks := axes.filterMap (fun a => match a with | .axis k => some k | _ => none)
-  mapX (fun q => match column q.1 rows with
-    | .error e => .error e
-    | .ok col => stackStates (stackFront q.2) col) ((List.range ks.length).zip ks)
+  scanCollectVecK (axisKs axes) rows
 
 /-- `_scan_merge_out` over the graph-node arguments: pops the final `carry_deque_out` and the (unchanged)
 `broadcast_deque`, and writes the merged states into the caller's Variables; `rows[i]` holds, for the graph-node
@@ -915,6 +931,12 @@ def scanCollectOut {α : Type} [Inhabited α] (o0 : PureOut α) (col : List (Pur
         match unrouteStates p.axes vec [] [] with
         | .error e => .error e
         | .ok sts => match rebuildNode vs sts with | .ok fl => .ok (.node fl) | .error e => .error e
+
+/-- result `q.1` over all iterations (`q.2` is what iteration 0 returned there) -/
+def scanOutAt {α : Type} [Inhabited α] (rows : List (List (PureOut α))) (q : Nat × PureOut α) : Except Err (Out α) :=
+  match column q.1 rows with
+  | .error e => .error e
+  | .ok col => scanCollectOut q.2 col
 
 /-- put the carry back among the results -/
 def insertCarry {α : Type} (cout : CarryPos) (ca : CarryArg) (cArr : Option (Arr α)) (outs : List (Out α)) :
@@ -977,9 +999,7 @@ def nnxScan {α : Type} [Inhabited α] (inAxes outAxes : AxesSpec) (length : Opt
                     match scanWriteBack (ys.map (·.1)) si.pure cfin.2 si.bcastDeque store with
                     | .error e => .error e
                     | .ok store' =>
-                      match mapX (fun q => match column q.1 (ys.map (·.2)) with
-                          | .error e => .error e
-                          | .ok col => scanCollectOut q.2 col) ((List.range y0.2.length).zip y0.2) with
+                      match mapX (scanOutAt (ys.map (·.2))) ((List.range y0.2.length).zip y0.2) with
                       | .error e => .error e
                       | .ok outs =>
                         match insertCarry cout ca cfin.1 outs with
